@@ -223,7 +223,19 @@ class C19(Engine):
                         a = b // bpa
                         org = a
                     used_asm = True
-                    plan["ops"].append({"op": "asm", "org": org, "lines": [[l[0], l[1]] for l in lines]})
+                    aop = {"op": "asm", "org": org, "lines": [[l[0], l[1]] for l in lines]}
+                    if org is not None and rng.chance(1, 3):
+                        # a second .org inside the block: what lies between the two pieces is not the block's business
+                        more = [rng.pick(pi) for _ in range(rng.range(1, 2))]
+                        first_len = sum(len(l[1]) // 2 for l in lines)
+                        gap_b = org * bpa + first_len + align * rng.range(1, 4)
+                        gap_b += (-gap_b) % max(align, bpa)
+                        org2_b = gap_b + max(align, bpa) * rng.range(1, 6)
+                        aop["org2"] = org2_b // bpa
+                        aop["lines2"] = [[l[0], l[1]] for l in more]
+                        plan["ops"].append({"op": "write", "width": 1, "addr": ["0x%x" % (gap_b // bpa), gap_b // bpa],
+                                            "vals": [["0x%x" % v, v] for v in (rng.range(1, 255), rng.range(1, 255))]})
+                    plan["ops"].append(aop)
             elif k == 15 and cpu in SIM:
                 tmpl, bits, rre, pcre, ilen = SIM[cpu]
                 a = (base & 0x3fff) + 0x300 + rng.below(0x20) * max(align, 2) // bpa
@@ -398,7 +410,6 @@ class C19(Engine):
                 for text, hx in op["lines"]:
                     console.append(text)
                     expect.append(("none", None))
-                console.append("")
                 blob = b"".join(bytes.fromhex(hx) for _, hx in op["lines"])
                 if org is not None:
                     start_b = org * bpa
@@ -407,7 +418,19 @@ class C19(Engine):
                 else:
                     start_b = 0
                 next_org[0] = start_b + len(blob)
-                expect.append(("asm-end", (start_b, blob)))
+                pieces = [(start_b, blob)]
+                if "org2" in op:
+                    console.append(".org 0x%x" % op["org2"])
+                    expect.append(("none", None))
+                    for text, hx in op["lines2"]:
+                        console.append(text)
+                        expect.append(("none", None))
+                    blob2 = b"".join(bytes.fromhex(hx) for _, hx in op["lines2"])
+                    pieces.append((op["org2"] * bpa, blob2))
+                    next_org[0] = op["org2"] * bpa + len(blob2)
+                    touch(op["org2"] * bpa, len(blob2))
+                console.append("")
+                expect.append(("asm-end", pieces))
                 touch(start_b, len(blob))
                 console.append("print 0x%x-0x%x" % (start_b // bpa, (start_b + len(blob)) // bpa + 2))
                 expect.append(("print", (1, start_b, start_b + len(blob) + bpa)))
@@ -728,13 +751,15 @@ class C19(Engine):
                 else:
                     res.probe("set_pc_checked")
             elif kind == "asm-end":
-                start_b, blob = payload
                 if "Error assembling" in joined:
                     res.viol("asm:valid-block-rejected:%s" % cpu, cmd=console[max(0, idx - 4):idx + 1], out=joined[:300])
                 else:
-                    for j, b in enumerate(blob):
-                        wr(start_b + j, b)
+                    for start_b, blob in payload:
+                        for j, b in enumerate(blob):
+                            wr(start_b + j, b)
                     res.probe("asm_block")
+                    if len(payload) > 1:
+                        res.probe("asm_block_with_inner_org")
         res.probe("cpu:" + cpu)
         return res
 
